@@ -1385,19 +1385,25 @@ def apply_monkey_patches() -> Iterator[None]:
     stays pristine once conversion finishes.
     """
     touched: list[tuple[Any, str]] = []
-    for patch_fn, targets, attr in _iter_patch_specs():
-        for tgt in targets:
-            key = (tgt, attr)
-            st = _PATCH_STATE.get(key)
-            if st is None:
-                orig = getattr(tgt, attr)
-                new = patch_fn(orig)
-                setattr(tgt, attr, new)
-                _PATCH_STATE[key] = {"orig": orig, "count": 1}
-            else:
-                st["count"] += 1
-            touched.append(key)
     try:
+        # Applying is part of the guarded region: if one target cannot be
+        # patched, the patches already applied must still be unwound.
+        for patch_fn, targets, attr in _iter_patch_specs():
+            for tgt in targets:
+                key = (tgt, attr)
+                st = _PATCH_STATE.get(key)
+                if st is None:
+                    orig = getattr(tgt, attr)
+                    try:
+                        owned = attr in vars(tgt)
+                    except TypeError:
+                        owned = True
+                    new = patch_fn(orig)
+                    setattr(tgt, attr, new)
+                    _PATCH_STATE[key] = {"orig": orig, "count": 1, "owned": owned}
+                else:
+                    st["count"] += 1
+                touched.append(key)
         yield
     finally:
         for key in reversed(touched):
@@ -1408,7 +1414,15 @@ def apply_monkey_patches() -> Iterator[None]:
             if st["count"] == 0:
                 tgt, attr = key
                 try:
-                    setattr(tgt, attr, st["orig"])
+                    if st.get("owned", True):
+                        setattr(tgt, attr, st["orig"])
+                    else:
+                        # The attribute was inherited: remove the patch so the
+                        # target inherits again instead of owning a copy.
+                        try:
+                            delattr(tgt, attr)
+                        except Exception:
+                            setattr(tgt, attr, st["orig"])
                 finally:
                     _PATCH_STATE.pop(key, None)
 
